@@ -43,10 +43,12 @@ Inductive content :=
 Definition str_in (k : string) (l : list string) : bool := existsb (String.eqb k) l.
 
 (* validateParamChangesAreAllowed: lengths equal; every key OF THE CURRENT MAP is
-   either in the allow-list or has a DeepEqual incoming value *)
+   present in the incoming map, and is either in the allow-list or has a
+   DeepEqual incoming value *)
 Definition validate_changes (cur inc : jmap) (allow : list string) : bool :=
   Nat.eqb (List.length cur) (List.length inc)
-  && forallb (fun kv => str_in (fst kv) allow || jeq (snd kv) (mget (fst kv) inc)) cur.
+  && forallb (fun kv => has_key (fst kv) inc
+                        && (str_in (fst kv) allow || jeq (snd kv) (mget (fst kv) inc))) cur.
 
 (* current[v.Key] == v.Val : an interface value compared with a string *)
 Definition val_is (m : jmap) (k : string) (s : jstr) : bool :=
